@@ -1,7 +1,20 @@
 #!/bin/sh
-# Full .vo build of the Coq development (no -vos). Usage: coq/build.sh [make args]
+# Full .vo build of the Coq development (no -vos/-vok).
+#   coq/build.sh                      build everything (setup_cmd)
+#   coq/build.sh theories/Props/C16.vo   build one target and what it depends on
 set -e
 cd "$(dirname "$0")"
-{ cat _CoqProject.in; find theories -name '*.v' | LC_ALL=C sort; } > _CoqProject
-coq_makefile -f _CoqProject -o Makefile.coq >/dev/null
-exec timeout 3600 make -f Makefile.coq -j16 "$@"
+tmp=$(mktemp _CoqProject.XXXXXX)
+{ cat _CoqProject.in; find theories -name '*.v' | LC_ALL=C sort; } > "$tmp"
+if [ ! -f _CoqProject ] || ! cmp -s "$tmp" _CoqProject || [ ! -f Makefile.coq ]; then
+  mv "$tmp" _CoqProject
+  mk=$(mktemp Makefile.coq.XXXXXX)
+  coq_makefile -f _CoqProject -o "$mk" >/dev/null
+  # coq_makefile writes <name>.conf next to it and includes it by name
+  sed -i "s#$(basename "$mk").conf#Makefile.coq.conf#g" "$mk"
+  mv "$mk.conf" Makefile.coq.conf
+  mv "$mk" Makefile.coq
+else
+  rm -f "$tmp"
+fi
+exec timeout 7200 make -f Makefile.coq -j16 "$@"
